@@ -61,6 +61,8 @@ inductive HOp (α β : Type) where
   | get (i : Nat) (k : α)                   -- `Get` / `Get2` / `Get4`
   | includes (i : Nat) (k : α)              -- `IncludesKey`
   | view (i : Nat)                          -- `Each` order, `Keys`, `Values`, `Len`, `At`
+  | mput (i : Nat) (e : α × β)              -- `MutableHashValue.Put`: pool[i] itself changes
+  | mputAll (i j : Nat)                     -- `MutableHashValue.PutAll(pool[j])`
 
 /-- what a step answers -/
 inductive HObs (α β : Type) where
@@ -104,6 +106,14 @@ def stepHSpec (key : α → κ) (pool : List (List (α × β))) : HOp α β → 
     match pool[i]? with
     | some m => (pool, .entries m)
     | none => (pool, .badRef)
+  | .mput i e =>
+    match pool[i]? with
+    | some m => (pool.set i (OMap.put key m e), .made)
+    | none => (pool, .badRef)
+  | .mputAll i j =>
+    match pool[i]?, pool[j]? with
+    | some a, some b => (pool.set i (OMap.merge key a b), .made)
+    | _, _ => (pool, .badRef)
 
 def runHSpec (key : α → κ) (pool : List (List (α × β))) : List (HOp α β) → List (HObs α β) × List (List (α × β))
   | [] => ([], pool)
